@@ -502,17 +502,18 @@ func TestVerifC07(t *testing.T) {
 	}
 	// 3. the peer stalls its reads, a burst arrives, the peer resumes: 1..5 all acknowledged; 6 still fits (one is in
 	// flight); 7 and 8: the documented drop
-	maxBurst := 8
+	// … up to 12: however many keep-alives were dropped in a row, the next one within the backlog is acknowledged again
+	maxBurst := 12
 	for n := 1; n <= maxBurst; n++ {
 		evs := []string{"k100", "S"}
 		for i := 0; i < n; i++ {
 			evs = append(evs, fmt.Sprintf("k%d", i+1))
 		}
-		evs = append(evs, "R", "k200")
+		evs = append(evs, "R", "k200", "k201")
 		script(1, evs...)
 	}
 	// 4. the same while the write loop is blocked writing a request: the queue alone takes 5
-	for n := 1; n <= 7; n++ {
+	for n := 1; n <= 10; n++ {
 		evs := []string{"S", fmt.Sprintf("r2:%d:3:1", 10*n)}
 		for i := 0; i < n; i++ {
 			evs = append(evs, fmt.Sprintf("k%d", 1000+i))
